@@ -107,6 +107,9 @@ Proof.
 Qed.
 Lemma shot_layers_length n gs : length (shot_layers n gs) = length (filter (fun g => negb (is_grz g)) gs) + 1.
 Proof. unfold SimLoopLayeredCalls.shot_layers. rewrite app_length, call_layers_length. reflexivity. Qed.
+Lemma shot_layers_count n gs :
+  length (shot_layers n gs) = length (filter (fun g : group => match g with GRz _ _ => false | _ => true end) gs) + 1.
+Proof. rewrite shot_layers_length. f_equal. f_equal. apply filter_ext. intros g. destruct g; reflexivity. Qed.
 End GCalls.
 
 (* ================================================================== (2) the depth the simulator passes *)
@@ -205,6 +208,42 @@ Proof.
   rewrite Eb. rewrite fold_err; [reflexivity|]. intros e y. reflexivity.
 Qed.
 End TooLarge.
+
+(* the same for a whole shot: constructed with ANY depth larger than the number of layers the shot fills, the builder still never raises
+   (the surplus columns stay untouched), and statevector then raises ValueError *)
+Section TooDeep.
+Variable R : Type.
+Variables (rO rI : R) (radd rmul rsub : R -> R -> R) (ropp : R -> R).
+Variable Rth : ring_theory rO rI radd rmul rsub ropp eq.
+Variables A D : Type.
+Variable K : consts R A.
+Variable ph : A -> Z * Z.
+Notation M := (mat R).
+Notation shot_ops := (shot_ops R rO rI radd rmul ropp A D K ph).
+Notation shot_layers := (shot_layers R rO rI radd rmul ropp A D K).
+
+Theorem grid_shot_too_deep n gs dp psi0 : 1 <= n -> Forall (group_wf A D n) gs -> Forall (group_adj A D) gs ->
+  length (shot_layers n gs) < dp ->
+  exists sg, gexec M (mid2 R rO rI) (g_init M n dp) (shot_ops n gs) = Ok (sg, []) /\
+    grid_statevector_cols R rI radd rmul n (map (map (ent_den R)) (g_content M sg)) psi0 = Err ValueError.
+Proof.
+  intros Hn W Ad Hlt.
+  destruct (shot_exec R rO rI radd rmul ropp A D K ph n BkStandard gs Hn W) as (s' & E & Hd & Hs & _).
+  pose proof (shot_ops_ok R rO rI radd rmul ropp A D K ph n gs Ad) as Fo.
+  assert (Hl : length (l_mplist M s') = length (shot_layers n gs)).
+  { rewrite <- Hd. unfold l_content. now rewrite map_length. }
+  destruct (grid_follows_layered M (mid2 R rO rI) n dp BkStandard (shot_ops n gs) s' E) as (sg & Eg & _ & _ & Hc).
+  - eapply Forall_impl; [|exact Fo]. intros o H. apply H.
+  - eapply Forall_impl; [|exact Fo]. intros o H. apply H.
+  - exact Hs.
+  - lia.
+  - exists sg. split; [exact Eg|]. rewrite Hc, Hl, map_app. fold (l_content M s'). rewrite Hd, !map_repeat'. cbn [ent_den].
+    destruct (dp - length (shot_layers n gs)) as [|m] eqn:Em; [lia|].
+    apply (grid_depth_too_large R rO rI radd rmul rsub ropp Rth n (shot_layers n gs) m psi0 Hn).
+    + unfold SimLoopLayeredCalls.shot_layers. intros Z. apply app_eq_nil in Z as [_ Z]. discriminate.
+    + now apply (shot_layers_wf R rO rI radd rmul ropp A D K).
+Qed.
+End TooDeep.
 
 (* ================================================================== (3) the grid shot and the composed theorem *)
 Section Shot.
